@@ -103,3 +103,11 @@ Print Assumptions C04_nil_and_non_struct_have_no_instances.
 Theorem C04_is_exported_from_source : forall name : str, run_bool fn_IsExported name = Some (is_exported name).
 Proof. exact is_exported_from_source. Qed.
 Print Assumptions C04_is_exported_from_source.
+
+(* "a struct reached through any number of pointer levels": RemoveValuePtr (valid/common.go), the loop every walker looks
+   through pointers with, from its source text regenerated on every run, computes the model's remove_ptr on EVERY
+   value — any number of levels (by induction on the value), a nil pointer at any level giving the invalid Value *)
+From PGV Require Import Extracted.SourceFnsPtr Model.GoPtr Proofs.GoPtrProofs.
+Theorem C04_pointer_levels_from_source : forall v : val, run_remove_ptr fn_RemoveValuePtr v = Some (remove_ptr v).
+Proof. exact remove_ptr_from_source. Qed.
+Print Assumptions C04_pointer_levels_from_source.
